@@ -1,5 +1,7 @@
 import Proofs.Syncer
 import Proofs.NetSteps2
+import Proofs.SysMirror
+import Props.C02
 /-!
 # C04 — The routing table mirrors what each node advertises
 
@@ -314,5 +316,109 @@ theorem C04_gossip_no_liveness_after_leave (s : Gossip.CState) (f : String → B
     ∀ e ∈ (Gossip.updateLiveness s f now).2, ∃ p ∈ s.nodes,
       (e = .unreachable p.2.id ∨ e = .reachable p.2.id) ∧ p.2.left = false ∧ p.2.id ≠ s.localId :=
   Gossip.updateLiveness_events s f now
+
+/-! ## The whole system: gossip + syncer + manager of every node in ONE model
+
+`PikoModel/Sys/System.lean`: `Sys` = the gossip network of `Gossip/Net.lean` (field `net`) plus, per
+node, the balancers, the one routing table shared by manager and syncer, the pending map and the
+ghost list of notifications (`side`).  `Sys.runRev ops` is the state after the history `ops` (latest
+first); `SysAllowed ops` is C02's quantifier lifted (no expiry sweep, version counters below 2^64 at
+compactions).  `Sys.node s n` assembles the layer records `Upstream.Mgr` / `Cluster.Sync` of node `n`.
+
+The composition: C02 (`C02_caught_up_exact`: a caught-up view is the owner's map) → flow invariant
+(`SysInv.view_not_left`) → C14 (`NodeInv.fold_view`: the notification fold is the visible view) →
+filtering of address deletes (`Proofs/SysTrace.lean`; `AddrStable` itself is NOT guaranteed by the
+gossip layer, see `sys_addrStable_counterexample` below) → `C04_mirror` → "syncer = pure syncer run"
+(`NodeInv.agree`) → C05 (`SysInv.owner_shows`). -/
+
+open Piko.Gossip in
+/-- **C04, first sentence, about the one system model.**  In every reachable state, for nodes
+`r ≠ a`: if `r`'s gossip view `V` of `a` has `a`'s own version (caught up) and `a` has not left, then
+`r`'s routing table has a row for `a` (and `a` is not pending) with `a`'s proxy and admin address and
+with exactly `a`'s registered endpoints and their upstream counts - an endpoint without a registered
+upstream (never registered, or withdrawn) has no entry; the status is `unreachable` or `active` as
+`r`'s failure detector last said.
+
+Hypotheses that are not in the informal statement, both about `a`'s configuration: its two
+addresses are non-empty (the syncer only promotes a node whose both addresses are non-empty;
+`config.Validate` requires them), and it has fewer than 2^63 upstreams per endpoint (`Atoi` range). -/
+theorem C04_mirror_system (ops : List SysOp) (hall : SysAllowed ops) (r a : String) (hne : r ≠ a)
+    (nr na : SysNode) (hr : (Sys.runRev ops).node r = some nr) (ha : (Sys.runRev ops).node a = some na)
+    (V : NodeSt) (hV : nr.mgr.gossip.nodes.find a = some V)
+    (hcaught : V.version = (own na.mgr.gossip).version)
+    (hnotleft : (own na.mgr.gossip).left = false)
+    (hp0 : na.mgr.cluster.localNode.proxyAddr ≠ "") (ha0 : na.mgr.cluster.localNode.adminAddr ≠ "")
+    (hsmall : ∀ e, (na.mgr.registry e).length < 2 ^ 63) :
+    nr.sync.pending.find a = none ∧
+    ∃ row, nr.mgr.cluster.nodes.find a = some row ∧ nr.sync.table.nodes.find a = some row ∧ row.id = a ∧
+      row.proxyAddr = na.mgr.cluster.localNode.proxyAddr ∧
+      row.adminAddr = na.mgr.cluster.localNode.adminAddr ∧
+      (∀ e, row.endpoints.find e =
+        if (na.mgr.registry e).length = 0 then none else some ((na.mgr.registry e).length : Int)) ∧
+      row.status = (if V.unreachable then Status.unreachable else Status.active) := by
+  obtain ⟨sdr, gr, hsr, hgr, rfl⟩ := Sys.node_eq hr
+  obtain ⟨sda, ga, hsa, hga, rfl⟩ := Sys.node_eq ha
+  simp only [] at hV hcaught hnotleft hp0 ha0 hsmall ⊢
+  have hinv := sysInv_runRev ops hall
+  have hnr := hinv.node r sdr gr hsr hgr
+  -- C02: the caught-up view is the owner's map
+  have hallN := allowedRev_netHist ops hall
+  have hobs : Observes (runRev (Sys.netHist ops)) r a V (own ga) := by
+    refine ⟨fun e => hne e.symm, ⟨gr, ?_, hV⟩, ⟨ga, ?_, rfl⟩⟩
+    · rw [← Sys.runRev_net]; exact hgr
+    · rw [← Sys.runRev_net]; exact hga
+  have hexact := C02_caught_up_exact hallN hobs hcaught
+  -- the flow invariant: `r` does not believe `a` has left
+  have hVleft : V.left = false := hinv.view_not_left hgr hga hV hnotleft
+  -- C14: the fold is the view
+  obtain ⟨nv, hnv, hnvl, hnvu, hnvk⟩ := hnr.fold_view hV (fun e => hne e.symm)
+  -- the filtered history
+  have hvs := vsim_fold sdr.evs vsim_nil a
+  have hvs' : NSim ((foldEvents sdr.evs).find a) ((foldEvents (dropAddrDeletes sdr.evs)).find a) := hvs
+  rw [hnv] at hvs'
+  cases hnv' : (foldEvents (dropAddrDeletes sdr.evs)).find a with
+  | none => rw [hnv'] at hvs'; exact hvs'.elim
+  | some nv' =>
+    rw [hnv'] at hvs'
+    have hleft' : nv'.left = false := by rw [← hvs'.1, hnvl, hVleft]
+    -- C05: what the owner shows
+    obtain ⟨hpx, hax, hepx, hcnt⟩ := hinv.owner_shows hga hsa
+    have hcaughtK : ∀ k, nv.kv.find k = visAt (own ga).entries k := by
+      intro k; rw [hnvk k]; unfold visAt; rw [hexact k]
+    have hcaught' := caught_filtered hvs' (visAt (own ga).entries) hcaughtK hpx hax
+    have hw := wellFormed_filtered r sdr.evs (C04_wellFormed_of_C14 r sdr.evs hnr.evok)
+    have hl := noLiveness_filtered r sdr.evs hnr.live
+    have had := addrStable_filtered (pa := (Sys.runRev ops).proxyOf) (aa := (Sys.runRev ops).adminOf) r sdr.evs hnr.addr
+    have hcounts : ∀ e c, sda.table.localNode.endpoints.find e = some c → 0 < c ∧ c < 2 ^ 63 := by
+      intro e c hc
+      rw [hcnt e] at hc
+      split at hc
+      · cases hc
+      · next h0 =>
+        cases hc
+        have := hsmall e
+        constructor <;> omega
+    have hmir := C04_mirror { id := r } (dropAddrDeletes sdr.evs) hw hl had a (fun e => hne e.symm) nv' sda.table.localNode
+      (visAt (own ga).entries) hnv' (not_dropped_of_not_left _ a nv' hnv' hleft') hcaught' hpx hp0 hax ha0 hepx hcounts
+    have hspec := (C04_table_spec { id := r } (dropAddrDeletes sdr.evs) hw hl had a (fun e => hne e.symm)).1 nv' hnv'
+      (not_dropped_of_not_left _ a nv' hnv' hleft')
+      (by
+        rw [bothAddr_iff]
+        simp only [NView.addr, hcaught', hpx, hax, Option.getD_some]
+        exact ⟨hp0, ha0⟩)
+    rw [run_dropAddrDeletes] at hmir hspec
+    -- the real syncer is the pure syncer on the remote rows
+    have hag := hnr.agree.2 a (by rw [Side.sync_table, hnr.tlid]; exact fun e => hne e.symm)
+    have hag1 := congrArg Prod.fst hag
+    have hag2 := congrArg Prod.snd hag
+    simp only [atNode, Side.sync_table, Side.sync_pending] at hag1 hag2
+    obtain ⟨hpn, row, hrow, hp, hq, hes, hst⟩ := hmir
+    obtain ⟨_, row2, hrow2, hid2, _⟩ := hspec
+    rw [hrow] at hrow2; cases hrow2
+    refine ⟨by rw [Side.sync_pending, hag2]; exact hpn, row, by rw [hag1]; exact hrow,
+      by rw [Side.sync_table, hag1]; exact hrow, hid2, hp, hq, fun e => ?_, ?_⟩
+    · rw [hes e, hcnt e]
+    · rw [hst]
+      simp only [NView.status, hleft', Bool.false_eq_true, if_false, ← hvs'.2.1, hnvu]
 
 end Piko
